@@ -76,6 +76,7 @@ class Ctx:
         self.names = ["x"] if len(self.specs) == 1 else [f"p{i}" for i in range(len(self.specs))]
         self.domains = [build(s) for s in self.specs]
         self._hp = {}
+        self.obs = None   # what the implementation returned in the last evaluated case (for coverage)
 
     def space(self):
         return dict(zip(self.names, self.domains))
@@ -130,6 +131,7 @@ def eval_construct(ctx, case):
                 if r:
                     out.append((R.key("construct", s, "values-" + r), f"{s}: listed value {v!r} is not a member"))
     hp = ctx.hp()
+    ctx.obs = "exc" if isinstance(hp, Exception) else int(hp.ndarray_size)
     if isinstance(hp, Exception):
         s = ctx.specs[0] if len(ctx.specs) == 1 else next(
             (t for t in ctx.specs if isinstance(Ctx([t]).hp(), Exception)), ctx.specs[0])
@@ -185,6 +187,7 @@ def eval_sample(ctx, case):
             cfg = hp.random_config(R.StubRS((case["random_config"],)))
         except Exception as e:  # noqa: BLE001
             return [(R.key("sample", ctx.specs[0], "random_config-" + _exc(e)), f"{ctx.specs}: {e}")]
+        ctx.obs = cfg
         for n, s in zip(ctx.names, ctx.specs):
             out += _check_sampled(s, cfg.get(n))
         return out
@@ -194,6 +197,7 @@ def eval_sample(ctx, case):
         res = dom.sample(size=size, random_state=R.StubRS(case["picks"]))
     except Exception as e:  # noqa: BLE001
         return [(R.key("sample", spec, _exc(e)), f"{spec}.sample(size={size}) raised {type(e).__name__}: {e}")]
+    ctx.obs = res
     if size == 1:
         if isinstance(res, (list, tuple, np.ndarray)):
             return [(R.key("sample", spec, "size1-not-scalar"), f"{spec}: sample(size=1) -> {_short(res)}")]
@@ -225,6 +229,7 @@ def eval_cast(ctx, case):
         c = dom.cast(v)
     except Exception as e:  # noqa: BLE001
         return [(R.key("cast", spec, _exc(e)), f"{spec}.cast({v!r}) raised {type(e).__name__}: {e}")]
+    ctx.obs = c
     r = R.member(spec, c)
     if r:
         return [(R.key("cast", spec, r), f"{spec}.cast({v!r}) = {c!r} is not a member")]
@@ -272,6 +277,7 @@ def eval_decode(ctx, case):
     except Exception as e:  # noqa: BLE001
         return [(R.key("decode", ctx.specs[0], _exc(e)),
                  f"{ctx.specs}: from_ndarray({vec}) raised {type(e).__name__}: {str(e)[:100]}")]
+    ctx.obs = cfg
     return _check_decoded(ctx, cfg, "decode", f"{ctx.specs}: from_ndarray({vec})")
 
 
@@ -324,6 +330,7 @@ def eval_roundtrip(ctx, case):
         dec = hp.from_ndarray(enc)
     except Exception as e:  # noqa: BLE001
         return [(R.key("roundtrip", ctx.specs[0], "decode-" + _exc(e)), f"{what}: from_ndarray raised {e}")]
+    ctx.obs = (enc.tolist(), dec)
     for n, s in zip(ctx.names, ctx.specs):
         if n not in dec or not R.same_value(s, cfg[n], dec[n]):
             reason = "beyond-rel-1e-7" if R.is_continuous(s) else "not-exact"
@@ -398,6 +405,7 @@ def eval_active(ctx, case):
     except Exception as e:  # noqa: BLE001
         return [(R.key("active", spec, "bounds-" + _exc(e)), f"{descr}: get_ndarray_bounds raised {e}")]
     n = sum(ctx.sizes())
+    ctx.obs = (aspec, bounds)
     if what == "bounds":
         msg = _bounds_ok(bounds, n)
         return [(R.key("active", spec, "bad-bounds"), f"{descr}: {msg}")] if msg else []
@@ -410,6 +418,7 @@ def eval_active(ctx, case):
             cfg = hp.from_ndarray(np.array(vec, dtype=float))
         except Exception as e:  # noqa: BLE001
             return [(R.key("active", spec, "decode-" + _exc(e)), f"{descr}: from_ndarray({vec}) raised {e}")]
+        ctx.obs = (aspec, cfg)
         out = _check_decoded(ctx, cfg, "decode", f"{descr}: from_ndarray({vec})")
         if not out:
             r = R.member_active(spec, aspec, cfg[name])
@@ -432,6 +441,7 @@ def eval_active(ctx, case):
             enc = hp.to_ndarray(cfg)
         except Exception as e:  # noqa: BLE001
             return [(R.key("active", spec, "encode-" + _exc(e)), f"{descr}: to_ndarray({cfg}) raised {e}")]
+        ctx.obs = (aspec, enc.tolist())
         off = sum(R.enc_size(ctx.specs[i]) for i in order[:order.index(pos)])
         for j in range(R.enc_size(spec)):
             a, b = bounds[off + j]
@@ -449,6 +459,7 @@ def eval_active(ctx, case):
             except Exception:  # noqa: BLE001
                 return []
             return [(R.key("active", spec, "random_config-" + _exc(e)), f"{descr}: {e}")]
+        ctx.obs = (aspec, cfg)
         r = R.member(aspec, cfg.get(name))
         if r and R.member(aspec, build(aspec).sample(random_state=R.StubRS((case["pick"],)))) is None:
             return [(R.key("active", spec, "random_config-outside-active-" + r), f"{descr}: {cfg}")]
@@ -496,6 +507,7 @@ def eval_fixed(ctx, case):
                  f"{type(e).__name__}: {str(e)[:100]}")]
     n = sum(ctx.sizes())
     k = R.enc_size(spec)
+    ctx.obs = (pos, bounds)
     if what == "bounds":
         msg = _bounds_ok(bounds, n)
         if msg:
@@ -513,6 +525,7 @@ def eval_fixed(ctx, case):
             cfg = hp.from_ndarray(np.array(vec, dtype=float))
         except Exception as e:  # noqa: BLE001
             return [(R.key("fixed", spec, "decode-" + _exc(e)), f"{descr}: from_ndarray({vec}) raised {e}")]
+        ctx.obs = (pos, cfg)
         out = _check_decoded(ctx, cfg, "decode", f"{descr}: from_ndarray({vec})")
         if not out and not R.same_value(spec, v, cfg[name]):
             out.append((R.key("fixed-decode", spec, "not-the-fixed-value"),
@@ -523,6 +536,7 @@ def eval_fixed(ctx, case):
             cfg = hp.random_config(R.StubRS((case["pick"],)))
         except Exception:  # noqa: BLE001
             return []  # sampling failures belong to clause 'sample'
+        ctx.obs = (pos, cfg)
         if not (type(cfg.get(name)) is type(v) and cfg.get(name) == v):
             return [(R.key("fixed", spec, "random_config-not-the-fixed-value"), f"{descr}: {cfg}")]
         return []
@@ -570,6 +584,7 @@ def eval_json(ctx, case):
     except Exception as e:  # noqa: BLE001
         return [(R.key("json", s0, "read-" + _exc(e)), f"{ctx.specs}: config_space_from_json_dict raised "
                  f"{type(e).__name__}: {str(e)[:100]}")]
+    ctx.obs = text
     out = []
     if list(space2.keys()) != list(space.keys()):
         return [(R.key("json", s0, "keys-differ"), f"{ctx.specs}: {list(space2)}")]
@@ -665,10 +680,12 @@ def check_space(specs, reduced, cov, viols, seen):
     nspec = R.norm(specs)
     for clause, (gen, ev) in CLAUSES.items():
         for case in gen(ctx, reduced):
+            ctx.obs = None
             res = ev(ctx, case)
             cov.add("evaluations")
             if nontrivial:
-                h = hash((nspec, clause, json.dumps(case, sort_keys=True, default=repr)))
+                # distinct observed behaviours: (space, clause, what the implementation returned)
+                h = hash((nspec, clause, repr(ctx.obs)))
                 if h not in seen:
                     seen.add(h)
                     cov.add("distinct_nontrivial")
@@ -746,12 +763,14 @@ def run(tier, seed):
         "boundaries +-1e-12}, {0,.5,1}^k for one-hot; all active sub-ranges over a 5-7 point sub-lattice / all subsets "
         "/ all contiguous subsequences x a 7-point lattice of the bounds box; every member as fixed last value); plus "
         "all ordered pairs and triples of representative domains with reduced per-coordinate lattices. "
-        "distinct_nontrivial = number of distinct (space, clause, case) triples whose space is not made of "
-        "single-member domains only (measured by hashing the triple).")
+        "distinct_nontrivial = number of distinct (space, clause, value returned by the implementation) triples "
+        "over spaces that are not made of single-member domains only (measured by hashing; many lattice inputs "
+        "map to the same returned value, so this is well below evaluations).")
     res.bounds = {"tier": tier, "lattice": {k: [repr(x) for x in v] for k, v in R.lattice(tier).items()},
                   "category_lists": len(R.STR_CATS + R.INT_CATS_INC + R.INT_CATS_UNS + R.FLT_CATS_INC + R.FLT_CATS_UNS),
                   "representatives_for_products": len(R.REPS),
                   "triples_over": 7 if tier == "quick" else len(R.REPS),
+                  "EPS": R.EPS, "DELTA": R.DELTA,
                   "sample_size3": "cyclic triples of the alphabet" if reduced else "full alphabet^3"}
     res.assumptions = list(env.ASSUMPTIONS) + [
         "legal parameters: lower<=upper; log domains lower>0; reverse-log 0<=lower<=upper<1; quantised float domains "
